@@ -71,7 +71,7 @@ theorem C11_plan (fails : Nat → Bool)
   simp
 
 /-- **C11 (init phase).** -/
-theorem C11_init_soft : Src.initSteps.all (·.2) = true ∧ Src.initSteps.length = 4 := by decide
+theorem C11_init_soft : Src.initSteps.all (fun s => s.2 != some false) = true ∧ Src.initSteps.length = 4 := by decide
 
 /-- **C11 (nothing failed → empty list).** -/
 theorem C11_no_fault_empty (n : Nat) : expectedPaths ⟨false, false, false, false, false⟩ n false = [] := by
